@@ -562,6 +562,17 @@ func MethodOn(call *ast.CallExpr, name string, isRecv func(ast.Expr) bool) bool 
 // themselves; anything else is returned unchanged. It makes the rules
 // indifferent to "extract expression into a local".
 func Resolve(info *types.Info, body ast.Node, e ast.Expr) ast.Expr {
+	return resolve(info, body, e, true)
+}
+
+// ValueOf is Resolve without the stability requirement: it answers "which
+// expression produced the value stored in this single-definition local",
+// e.g. to recognise the result of a call that was first bound to a variable.
+func ValueOf(info *types.Info, body ast.Node, e ast.Expr) ast.Expr {
+	return resolve(info, body, e, false)
+}
+
+func resolve(info *types.Info, body ast.Node, e ast.Expr, needStable bool) ast.Expr {
 	for depth := 0; depth < 3; depth++ {
 		id, ok := ast.Unparen(e).(*ast.Ident)
 		if !ok {
@@ -593,7 +604,7 @@ func Resolve(info *types.Info, body ast.Node, e ast.Expr) ast.Expr {
 			}
 			return true
 		})
-		if rhs == nil || !stable(info, body, rhs) {
+		if rhs == nil || needStable && !stable(info, body, rhs) {
 			return e
 		}
 		e = rhs
